@@ -252,12 +252,42 @@ pub fn string_domain_len(tier: Tier, d: &Decl, l: usize) -> Vec<Val> {
         let d: String = std::iter::repeat('7').take(n).collect();
         v.push(d);
     }
+    // byte/char confusions and size shortcuts: for every length bound b <= 24 also runs of 2b+1, 2b+2, 3b+3, 4b+4
+    // and 4b+5 characters (a shortcut such as "more than 4*max bytes cannot fit" only fires there), with 1-, 2-,
+    // 3- and 4-byte characters and with a 1- or 2-byte prefix (so that multi-byte characters straddle every
+    // byte offset class)
+    for b in decl_bounds(d).iter().filter_map(|b| if let Val::U(n) = b { Some(*n as usize) } else { None }) {
+        if b <= 24 {
+            for n in [2 * b + 1, 2 * b + 2, 3 * b + 3, 4 * b + 4, 4 * b + 5] {
+                for c in ['a', 'ß', '\u{2003}', '日', '🦀'] {
+                    v.push(std::iter::repeat(c).take(n).collect());
+                }
+                for pre in ["x", "é", "aé"] {
+                    let mut s = String::from(pre);
+                    s.extend(std::iter::repeat('日').take(n));
+                    v.push(s);
+                }
+            }
+        }
+    }
+    // a fixed set of long texts whose multi-byte characters straddle byte offsets 16, 32, 64 (previews, buffers)
+    if matches!(d.inner, Inner::Str | Inner::Cow) {
+        for pre in ["", "a", "ab"] {
+            for c in ['日', 'é', '🦀'] {
+                for n in [12usize, 23, 34] {
+                    let mut s = String::from(pre);
+                    s.extend(std::iter::repeat(c).take(n));
+                    v.push(s);
+                }
+            }
+        }
+    }
     // large length bounds (255/256, 65535/65536: where a narrowed counter would wrap): single-character runs
     // one below, at and one above the bound, with 1-, 2- and 4-byte characters
     for b in decl_bounds(d).iter().filter_map(|b| if let Val::U(n) = b { Some(*n as usize) } else { None }) {
         if b > 24 && b <= 70_000 {
             for n in [b - 1, b, b + 1] {
-                for c in ['a', 'ß', '🦀'] {
+                for c in ['a', 'ß', '日', '🦀'] {
                     v.push(std::iter::repeat(c).take(n).collect());
                 }
                 let mut s: String = std::iter::repeat('b').take(n).collect();
